@@ -18,6 +18,22 @@ static void gen_number(vh_rng_t * r, stream_t * s) {
     static const char * const nums[] = { "0", "1", "-1", "+5", "12.5", ".5", "5.", "1e3", "1E+3", "1 E 3", "1e", "1e+", "-", "+", ".", "9999999999999999999999", "1e400", "-1e-400", "0x10", "1.2.3",
         "#H", "#HFF", "#hffffffffffffffffff", "#Q777", "#Q8", "#B101", "#B2", "#", "4294967296", "-2147483649", "18446744073709551616", "1e-320", "00000000000000000000000000000001" };
     static const char * const sufs[] = { "", "V", " V", "MV", " kohm", "HZ", "FOO", " E", "V/S", "V.S-1", "/", "M-", "S2", " DBM", "mhz", "EV" };
+    if (vh_chance(r, 1, 6)) {
+        /* long decimal tokens with the white space 488.2 allows around the exponent mark: total non-blank length swept around
+         * the sizes of conversion buffers a decoder may use (16, 32, 64, 128) */
+        static const int around[] = { 16, 32, 64, 128 };
+        int target = around[vh_below(r, 4)] - 4 + (int) vh_below(r, 9), nd, i; char e[16]; int el;
+        el = snprintf(e, sizeof e, "%s%d", vh_chance(r, 1, 2) ? "-" : (vh_chance(r, 1, 2) ? "+" : ""), (int) vh_below(r, 300));
+        nd = target - 1 - el - (vh_chance(r, 1, 2) ? 1 : 0); if (nd < 1) nd = 1;
+        if (vh_chance(r, 1, 3)) putc_(s, '-');
+        for (i = 0; i < nd; i++) { if (i == nd / 2 && vh_chance(r, 1, 2)) putc_(s, '.'); putc_(s, '0' + (int) vh_below(r, 10)); }
+        if (vh_chance(r, 2, 3)) putc_(s, ' ');
+        putc_(s, vh_chance(r, 1, 2) ? 'E' : 'e');
+        if (vh_chance(r, 1, 2)) putc_(s, ' ');
+        puts_(s, e);
+        if (vh_chance(r, 1, 3)) puts_(s, sufs[vh_below(r, sizeof sufs / sizeof sufs[0])]);
+        return;
+    }
     puts_(s, nums[vh_below(r, sizeof nums / sizeof nums[0])]);
     if (vh_chance(r, 1, 3)) puts_(s, sufs[vh_below(r, sizeof sufs / sizeof sufs[0])]);
 }
